@@ -7,8 +7,8 @@
    The main statement holds for every class and every input (no domain restriction since the
    empty-string alias was repaired in /repo 7108448). *)
 From Coq Require Import List String Ascii ZArith Bool.
-From Verif Require Import Regex PyK PyK_alias KeyModel KeyImpl KeyProofs.
-From VerifGen Require Import K4.
+From Verif Require Import Regex PyK PyK_strat PyK_alias FieldDecl FieldDeclProofs KeyModel KeyImpl KeyProofs KeyDecl KeyCfg KeyNested.
+From VerifGen Require Import K4 K5.
 Import ListNotations.
 Open Scope string_scope.
 Open Scope list_scope.
@@ -127,32 +127,168 @@ Theorem C09_nearest_declaration : forall n ls l,
 Proof. exact nearest_declaration. Qed.
 Print Assumptions C09_nearest_declaration.
 
-Theorem C09_nearest_config : forall ls l,
-  nearest_cfg (ls ++ [l]) = match l_cfg l with Some g => g | None => nearest_cfg ls end.
+(* Python attribute lookup: a Config of the class body overrides what the class would otherwise see,
+   attribute by attribute if it derives from it, entirely if it does not *)
+Theorem C09_nearest_config : forall ls l, nearest_cfg (ls ++ [l]) = step_cfg (nearest_cfg ls) l.
 Proof. exact nearest_config. Qed.
 Print Assumptions C09_nearest_config.
+
+(* (T) CodeBuilder.get_config, translated from /repo (VerifGen.K4.get_config), run on the class objects of a
+   hierarchy r (nearest class first; BaseConfig subclasses, plain classes, Configs deriving from the Config
+   their class would otherwise see) returns a class whose options are those of Python's attribute lookup *)
+Theorem C09_get_config : forall r,
+  exists c, get_config (cls_obj r) base_config KNone (KBool true) = Ok c
+            /\ cfg_of_class c = Some (nearest_cfg (rev r)).
+Proof. exact get_config_spec. Qed.
+Print Assumptions C09_get_config.
+
+Theorem C09_builder_config : forall ls, impl_cfg ls = Ok (nearest_cfg ls).
+Proof. exact impl_cfg_nearest. Qed.
+Print Assumptions C09_builder_config.
 
 (* every field name occurs once among the collected declarations (re-declaration replaces in place) *)
 Theorem C09_fields_unique : forall ls, NoDup (map dname (collect ls)).
 Proof. exact collect_nodup. Qed.
 Print Assumptions C09_fields_unique.
 
+(* the generated code of a class given by its hierarchy -- the Config through the translated get_config, then
+   the translated alias / lookup / allowed-key kernels -- is KEYMODEL of the class the hierarchy denotes *)
 Theorem C09_keys_hier : forall ls discr d,
-  impl_from_dict (class_of ls discr) d = Ok (keymodel (class_of ls discr) d).
-Proof. exact impl_eq_keymodel_hier. Qed.
+  impl_from_hier ls discr d = Ok (keymodel (class_of ls discr) d).
+Proof. exact impl_from_hier_keymodel. Qed.
 Print Assumptions C09_keys_hier.
 
-(* A.x alias "x_v1"; B(A).x alias "x_v2" and B's Config; C(B) re-declares nothing: C reads x from "x_v2";
+(* ---- the alias data the generated code uses comes from CodeBuilder.dataclass_fields (translated as
+   VerifGen.K5, tied to FieldDecl.ref_fields by C10): run on the encoding of the hierarchy, followed by
+   metadatas.get(fname, {}) and __get_field_alias (K4), it yields KeyModel.alias_of of the class the
+   hierarchy denotes.  mdf: the metadata mapping written in a declaration (any mapping whose "alias"
+   entry is the declared alias); rest: the MRO after the class itself (mro_of: it resolves names like
+   the hierarchy ls -- discharged below for single inheritance and for unrelated bases K(B, A); extra =
+   MRO entries without fields: object, mixins, a field-less Base); the last hypothesis is discharged
+   below for the two views the builder has of the class body. ---- *)
+Theorem C09_alias_from_sources :
+  forall (mdf: fld -> kv), (forall f, k_dict_get (mdf f) (KStr "alias") = Ok (enc_ostr (f_meta f))) ->
+  forall (ls: list level) (l: level) (rest: list pyclass) (c0: pyclass) nsd ownf discr,
+  mro_of mdf rest ls ->
+  sd_get nsd "__dataclass_fields__" = None -> ~ In "__dataclass_fields__" (map dname (l_decls l)) ->
+  (forall n f i, lookup_decl n (rev (l_decls l)) = Some (f, i) ->
+     alias_md (own_result nsd ownf n) = Ok (enc_ostr (f_meta f))) ->
+  exists d,
+    dataclass_fields (KTuple (enc_class c0 :: map enc_class rest))
+                     (KList (map KStr (map dname (l_decls l)))) (enc_namespace nsd ownf)
+    = Ok (KDict (enc_sd d))
+    /\ forall f, In f (effective (ls ++ [l])) ->
+       exists md, md_lookup d (f_name f) = Ok md
+         /\ get_field_alias (KStr (f_name f)) md
+              (KBool (match f_ann f with Some _ => true | None => false end))
+              (match f_ann f with Some a => KTuple (map enc_ann a) | None => KNone end)
+              (enc_aliases (c_aliases (class_of (ls ++ [l]) discr)))
+            = Ok (enc_ostr (alias_of (class_of (ls ++ [l]) discr) f)).
+Proof. exact alias_from_sources. Qed.
+Print Assumptions C09_alias_from_sources.
+
+(* MRO of single inheritance: each ancestor's __dataclass_fields__ is cumulative *)
+Theorem C09_mro_chain :
+  forall (mdf: fld -> kv) ls extra, Forall fieldless extra -> mro_of mdf (anc mdf (rev ls) ++ extra) ls.
+Proof. exact mro_chain. Qed.
+Print Assumptions C09_mro_chain.
+
+(* MRO of K(B, A) with unrelated bases: nearest first, each with the fields of its own body *)
+Theorem C09_mro_roots :
+  forall (mdf: fld -> kv) ls extra, Forall fieldless extra -> mro_of mdf (roots mdf ls ++ extra) ls.
+Proof. exact mro_roots. Qed.
+Print Assumptions C09_mro_roots.
+
+(* view (a): the class is finished (codecs; any compilation after @dataclass has run) *)
+Theorem C09_own_view_finished :
+  forall (mdf: fld -> kv), (forall f, k_dict_get (mdf f) (KStr "alias") = Ok (enc_ostr (f_meta f))) ->
+  forall ls l nsd,
+  (forall n, In n (map dname (l_decls l)) -> k_is_field (or_missing (sd_get nsd n)) = false) ->
+  forall n f i, lookup_decl n (rev (l_decls l)) = Some (f, i) ->
+    alias_md (own_result nsd (Some (fields_dict (cum mdf (collect (ls ++ [l]))))) n) = Ok (enc_ostr (f_meta f)).
+Proof. exact own_view_finished. Qed.
+Print Assumptions C09_own_view_finished.
+
+(* view (b): the mixin compiles in __init_subclass__, before @dataclass has run *)
+Theorem C09_own_view_raw :
+  forall (mdf: fld -> kv), (forall f, k_dict_get (mdf f) (KStr "alias") = Ok (enc_ostr (f_meta f))) ->
+  forall (l: level) nsd,
+  (forall n f i, lookup_decl n (rev (l_decls l)) = Some (f, i) ->
+     sd_get nsd n = Some (KNs [("name", KNone); ("metadata", mdf f)])
+     \/ (k_is_field (or_missing (sd_get nsd n)) = false /\ f_meta f = None)) ->
+  forall n f i, lookup_decl n (rev (l_decls l)) = Some (f, i) ->
+    alias_md (own_result nsd None n) = Ok (enc_ostr (f_meta f)).
+Proof. exact own_view_raw. Qed.
+Print Assumptions C09_own_view_raw.
+
+(* non-vacuity: the translated dataclass_fields evaluated on A.x (alias x_v1), B(A).x (alias x_v2), C(B):
+   the Field found for x carries B's metadata, and the translated __get_field_alias returns "x_v2" *)
+Example C09_nonvacuous_sources :
+  let fA := mkF "x" (Some "x_v1") None false in
+  let fB := mkF "x" (Some "x_v2") None false in
+  let ls := [mkL [(fA, true)] None; mkL [(fB, true)] None] in
+  dataclass_fields (KTuple (enc_class None :: map enc_class (anc enc_meta (rev ls) ++ [None])))
+                   (KList []) (enc_namespace [] (Some (fields_dict (cum enc_meta (collect ls)))))
+  = Ok (KDict (enc_sd [("x", mk_field "x" (enc_meta fB))]))
+  /\ get_field_alias (KStr "x") (enc_meta fB) (KBool false) KNone (enc_aliases [("x", "cx")]) = Ok (KStr "x_v2").
+Proof. split; vm_compute; reflexivity. Qed.
+
+(* A.x alias "x_v1"; B(A).x alias "x_v2"; B's Config derives from A's (keeps allow, replaces aliases, sets
+   forbid); C(B) re-declares nothing: C reads x from "x_v2" or, as allow is inherited, from "x";
    y is re-declared init=False in B and is not read any more *)
 Example C09_nonvacuous_hier :
   let ls := [mkL [(mkF "x" (Some "x_v1") None false, true); (mkF "y" None None true, true)]
-                 (Some (mkCfg [("x", "cx")] true false));
+                 (Some (mkCD false false (Some [("x", "cx")]) (Some true) None));
              mkL [(mkF "x" (Some "x_v2") None false, true); (mkF "y" None None true, false)]
-                 (Some (mkCfg [] false true));
+                 (Some (mkCD true false (Some []) None (Some true)));
              mkL [] None] in
   effective ls = [mkF "x" (Some "x_v2") None false]
   /\ keymodel (class_of ls None) [(KeyS "x_v2", 1%Z)] = OInst [("x", Some (KeyS "x_v2", 1%Z))]
+  /\ nearest_cfg ls = mkCfg [] true true /\ impl_cfg ls = Ok (mkCfg [] true true)
+  /\ keymodel (class_of ls None) [(KeyS "x", 1%Z)] = OInst [("x", Some (KeyS "x", 1%Z))]
   /\ keymodel (class_of ls None) [(KeyS "x_v1", 1%Z); (KeyS "x_v2", 2%Z); (KeyS "y", 3%Z)] = OExtra [KeyS "x_v1"; KeyS "y"].
+Proof. repeat split; vm_compute; reflexivity. Qed.
+
+(* a plain Config deriving from a plain Config keeps what it inherits (repaired in /repo b122a57; before, the
+   parent's aliases and forbid_extra_keys were lost): A.Config{aliases x->ax, forbid}, K.Config(A.Config){allow} *)
+Example C09_nonvacuous_plain_config :
+  let ls := [mkL [(mkF "x" None None true, true)] (Some (mkCD false true (Some [("x", "ax")]) None (Some true)));
+             mkL [] (Some (mkCD true true None (Some true) None))] in
+  impl_cfg ls = Ok (mkCfg [("x", "ax")] true true)
+  /\ impl_from_hier ls None [(KeyS "ax", 1%Z); (KeyS "q", 2%Z)] = Ok (OExtra [KeyS "q"])
+  /\ impl_from_hier ls None [(KeyS "x", 1%Z)] = Ok (OInst [("x", Some (KeyS "x", 1%Z))]).
+Proof. repeat split; vm_compute; reflexivity. Qed.
+
+(* ---- dataclass-typed fields: the value found under the outer key is decoded by the inner class with the
+   inner class's own aliases and options; failures inside surface as InvalidFieldValue of the outer field ---- *)
+Theorem C09_nested : forall c nt tbl d, nimpl c nt tbl d = nkeymodel c nt tbl d.
+Proof. exact nimpl_eq_nkeymodel. Qed.
+Print Assumptions C09_nested.
+
+Theorem C09_nested_inner_options : forall c nt tbl d f k v inner dn,
+  c_fields c = [f] -> extra_keys c d = [] ->
+  field_read c d f = Some (k, v) -> cls_of nt (f_name f) = Some inner -> inner_of tbl v = Some dn ->
+  nkeymodel c nt tbl d
+  = match keymodel inner dn with
+    | OInst vs => NInst [(f_name f, Some (RInner vs))]
+    | _ => NInvalid (f_name f)
+    end.
+Proof. exact nested_uses_inner_options. Qed.
+Print Assumptions C09_nested_inner_options.
+
+(* outer: forbid_extra_keys, n: N read from alias "nn"; inner N: allow_deserialization_not_by_alias, x alias "ix".
+   The inner mapping may use the name x (inner allow) although the outer class does not allow names; an extra key
+   inside is ignored (inner forbid is off) although the outer class forbids extras; an extra key outside is reported *)
+Example C09_nonvacuous_nested :
+  let inner := mkC [mkF "x" (Some "ix") None false] [] true false None in
+  let outer := mkC [mkF "n" (Some "nn") None false] [] false true None in
+  nkeymodel outer [("n", inner)] [[(KeyS "x", 5%Z); (KeyS "junk", 6%Z)]] [(KeyS "nn", 1000%Z)]
+    = NInst [("n", Some (RInner [("x", Some (KeyS "x", 5%Z))]))]
+  /\ nimpl outer [("n", inner)] [[(KeyS "x", 5%Z); (KeyS "junk", 6%Z)]] [(KeyS "nn", 1000%Z)]
+    = NInst [("n", Some (RInner [("x", Some (KeyS "x", 5%Z))]))]
+  /\ nkeymodel outer [("n", inner)] [[(KeyS "x", 5%Z)]] [(KeyS "n", 1000%Z)] = NExtra [KeyS "n"]
+  /\ nkeymodel outer [("n", inner)] [[(KeyS "y", 5%Z)]] [(KeyS "nn", 1000%Z)] = NInvalid "n"
+  /\ nkeymodel outer [("n", inner)] [] [(KeyS "nn", 7%Z)] = NInvalid "n".
 Proof. repeat split; vm_compute; reflexivity. Qed.
 
 (* ---- non-vacuity: a class with all three sources, a shadowed alias (x's alias is the name of y),
